@@ -27,18 +27,18 @@ CHECKS = {
         design="2/C02"),
     "C07": dict(
         technique="generated wall times (complete transition neighbourhoods + seeded random) vs occurrence-set oracle derived from zic",
-        text="Every zone of zonedbx and zonedb x every wall minute within +-200 min of every transition, every second within "
+        text="Every zone of zonedbx and zonedb x every wall minute within +-200 min of every transition, every minute of the first and last two days of 2000-01-01T00:00:00..2049-12-31T23:59:59 local, every second within "
              "+-61 s of every gap/overlap edge (thorough: +-1 h), all Dec 31/Jan 1 wall minutes, and 500 (thorough 5,000) "
              "seed-drawn wall times per zone: ~1e8 resolutions per run. Expected result computed from the set of real "
              "occurrences {t : t+utoff(t)=w} of the zic oracle; checks non-error, normalisation, identity when unique, "
              "later occurrence (Extended) / any occurrence (Basic) in overlaps, pre-gap offset in gaps.",
-        note="Same oracle trust as C01/C02; wall times limited to 2000-01-03..2049-12-29.",
+        note="Same oracle trust as C01/C02 (oracle extended three days beyond 2000..2049).",
         design="2/C07"),
     "C08": dict(
         technique="Hypothesis rule-based state machine + exhaustive two-step histories, fresh-instance differential oracle, ASan/UBSan",
         text="History independence: (1) exhaustive enumeration, per sampled zone (thorough: every zone), of every ordered pair of "
              "years 1998..2051 x every ordered pair of query kinds as a two-step history on one processor plus A;B;A zone "
-             "interleavings (5.9e6 histories quick); (2) a Hypothesis RuleBasedStateMachine over shared processors, managers "
+             "interleavings over every ordered pair of years (5.9e6 histories quick); (2) a Hypothesis RuleBasedStateMachine over shared processors, managers "
              "with cache size 1..4 holding 2..8 zones, creation by name/id/index/info, queries incl. out-of-range/sentinel, "
              "repeat-last, alternate and same-year-other-instant rules, on an ASan+UBSan build; the exhaustive part also takes same-year pairs of different instants. Every answer is compared with the same query on a "
              "brand-new processor; failures are collected, bucketed and minimised by delta debugging into replayable op lists.",
@@ -51,14 +51,14 @@ CHECKS = {
              "of each database; queries: all present names/ids/indices, an absent name in every gap, below/above the ends, "
              "prefixes, extensions, absent names constructed to have the djb2 hash of a present name, id+-1, 0, 0xFFFFFFFF, indices beyond the end, plus Hypothesis-drawn byte strings; through "
              "indexForZoneName/Id and createForZoneName/Id/Index. Exact agreement with a linear scan; 1 s per-lookup hang bound; "
-             "sanitizers report reads outside the registry.",
+             "sanitizers report reads outside the registry; plus Hypothesis-drawn histories of 6..30 lookups (incl. createForZoneInfo outside the registry and immediate repeats) over 2..3 registries living in one fresh process.",
         note="No duplicate entries are generated; sizes above 40 only via the full registries.",
         design="2/C10"),
     "C11": dict(
         technique="exhaustive enumeration over all zones/links/constants vs independent djb2 + set algebra; Hypothesis names and constructed collisions",
         text="Every registry entry, declared zone symbol, link symbol and kZoneId constant of zonedb and zonedbx (decoded through the "
              "brokers and a TU generated from zone_infos.h), every zonedbpy name, every baseline name, and the databases freshly "
-             "compiled by tzcompiler.py from the reconstructed source: id == djb2(name), unique, equal across databases and the "
+             "compiled by tzcompiler.py (C++ and Python) from the reconstructed source and from a names source ('+', '-', '_', colliding identifiers, links to each): id == djb2(name), unique, equal across databases and the "
              "recorded baseline, registry strictly ascending and equal to the declared set, link address/name == target; "
              "Hypothesis-generated names for hash_name and constructed djb2 collisions (placed first, last and at drawn positions) for _detect_hash_collisions. Complete over "
              "the shipped data.",
@@ -88,13 +88,13 @@ CHECKS = {
              "{not ready, valid(const), valid(varying), valid(echo of the current reading), invalid} to depth 4-5 (thorough 5-6) for 8 (config, wiring) combinations "
              "(1.6e6 sequences quick), plus Hypothesis histories of 20..120 (300) steps over 5 configurations x 5 wirings. "
              "Invariants I1..I6 (apply valid response + backup write rule, failures never change clock/last-sync, request spacing "
-             ">= retry period with doubling/cap/reset, bounded progress, no calls without a reference, readResponse only when ready).",
+             ">= retry period with doubling/cap/reset and never longer than max(sync, initial), bounded progress, time kept through loop() alone without a reference clock, no calls without a reference, readResponse only when ready).",
         note="Bounded depth for the exhaustive part; LP64 host: loop()'s unsigned long arithmetic does not wrap at 2^32 here.",
         design="2/C14", category="exploration"),
     "C03": dict(
         technique="differential testing against an independent compiler (zic) over five source corpora (reconstructed, real 2025b, names, 576 enumerated era-boundary x rule sources, Hypothesis grammar); accounting invariant over the transformer output",
         text="Corpora: source reconstructed from the shipped tables, the vendored real 2025b release (443 zones; expansion validated "
-             "against zic on the original), a 'names' source (duplicate normalised names, links to removed zones), 504 extended / 72 basic enumerated sources (hemisphere x next-era kind x STDOFF step x UNTIL form x AT suffix, era boundaries +-2 h / +-5 h around rule transitions in u/s/w) and Hypothesis-generated small sources (both scopes, varying year ranges). For every "
+             "against zic on the original), a 'names' source (duplicate normalised names, links to removed zones), 586 extended / 106 basic enumerated sources (hemisphere x next-era kind x STDOFF step x UNTIL form x AT suffix, era boundaries +-2 h / +-5 h around rule transitions in u/s/w, policies that start or stop around the era change, one-off extra rules in the month of a regular rule, weekday UNTIL forms) and Hypothesis-generated small sources (both scopes, varying year ranges). For every "
              "(source, scope): tzcompiler.py -> generated C++ tables compiled into the sweep driver (path A: 300 s stride + per-second "
              "windows at every oracle transition + field probes; thorough 60 s) and Extractor->Transformer->InlineGenerator->"
              "ZoneSpecifier in-process (path P) must equal zic's function over [start_year, until_year); every input zone/link/policy is "
@@ -108,7 +108,7 @@ CHECKS = {
         technique="Hypothesis-drawn and table-constructed (zone, range, interval) cases vs the third-party libraries' own transition tables; render/read-back round trip",
         text="compare_pytz / compare_dateutil TestDataGenerator on cases constructed from the library's transition table (a transition "
              "near the end of the range, ~1/3 of the cases) and Hypothesis-drawn cases over all zones, ranges within 2000..2037, sampling "
-             "intervals 1..22 h and both detect_dst settings (thorough: every zone for 2000..2037): items sorted/unique, every item "
+             "intervals 1..72 h and both detect_dst settings (thorough: every zone for 2000..2037): items sorted/unique, every item "
              "equals a fresh library evaluation, every qualifying table transition bracketed by an adjacent-minute A/B (a/b) pair, "
              "monthly and year-end samples; 10 data sets rendered by ArduinoValidationGenerator, compiled and read back.",
         note="For dateutil the bracketing clause excludes zones with negative DST, DST-only changes and the last table entry (library API "
@@ -116,7 +116,7 @@ CHECKS = {
         design="2/C19"),
     "C20": dict(
         technique="metamorphic relations over compiler runs (repeat under another hash seed, import vs in-memory, counts vs entries, basic vs extended differential) + zic differential on the checked-in Python database",
-        text="Sources {reconstructed 2020d, real 2025b, a seconds/odd-minute source} x scope x language x two runs in fresh interpreters with different "
+        text="Sources {reconstructed 2020d, real 2025b, a seconds/odd-minute source} x scope x language x two (small source: eight) runs in fresh interpreters with different "
              "PYTHONHASHSEED: R1 byte-identical files (canonical reason order), R2 imported zone_infos.py/zone_policies.py == "
              "InlineGenerator maps, R3 zones.txt == emitted set, R4 every stated count == counted entries (incl. kZoneRegistrySize), R5 "
              "basic zones subset of extended with equal RLE streams through the two fresh builds unless the zone carries a truncation note, R6 every tools/zonedbpy zone x "
@@ -161,7 +161,7 @@ CHECKS = {
         text="All 93,136 dates x 4 times and Hypothesis-drawn date-times, every offset -5999..5999 minutes, seed-drawn offset date-times "
              "x ~60 offsets incl. -00:59..-00:01, every zone of both registries x 20 instants (direct and managed; the previous value is re-printed after each request), zoned date-times from components over years 1873..2127 and manual zones: "
              "printed text must equal the reference format exactly and parse back to an equal value (const char* and F() parsers); "
-             "error placeholders; every proper prefix of a valid text per parser must give an error value.",
+             "error placeholders incl. values with exactly one invalid part; 24:00:00; every proper prefix of a valid text per parser must give an error value.",
         note="Trusts the shim's Print/printPad2To. Malformed text of full length is documented as unspecified (memory safety: C09).",
         design="2/C15"),
     "C16": dict(
@@ -248,7 +248,9 @@ def main():
         "checks": checks,
         "not_applicable": na,
         "notes": "Every check rebuilds the C++ under test from $VERIF_REPO (default /repo) into /verif/.build/<id>.<pid>/ "
-                 "and removes it. Exit 0 held / 1 VIOLATION / 2 harness error. Known findings: KNOWN_FINDINGS.txt.",
+                 "and removes it. Exit 0 held / 1 VIOLATION / 2 harness error. Known findings: KNOWN_FINDINGS.txt. Every run of a "
+                 "check also replays the saved minimal inputs of repaired findings (replays/<id>/fixed_*.json), so a defect "
+                 "that returns is reported even if the generated search does not rediscover it.",
     }
     with open(os.path.join(VERIF, "MANIFEST.json"), "w") as f:
         json.dump(m, f, indent=1)
